@@ -4,6 +4,7 @@
 package c06
 
 import (
+	"fmt"
 	"testing"
 
 	"pgregory.net/rapid"
@@ -103,6 +104,30 @@ func init() {
 			Rule: "as scenarios, with Concurrency 17-33 and batches of up to 9 parking calls that are rarely released, so that more handlers are parked than the machine has CPUs and the limit is still reached; non-trivial = more dispatched parking requests than slots at some quiescent point; distinct = hash of the scenario"},
 		engine.Part[sim.Scenario]{Name: "notes", Run: run, Gen: genNotes,
 			Rule: "as scenarios, with notifications and with handlers that fail, return unmarshalable values, errors with broken data or context errors: every way a handler can end must give its slot back (clauses of C01/C03 violated in the same scenario are reported by those checks, not here); non-trivial = more dispatched parking requests than slots at some quiescent point; distinct = hash of the scenario"})
+}
+
+// cancelrace: the cancellation clause in the one race that history alone can
+// decide (oracle.CancelBeforeAcquire).
+func genCancelRace(t *rapid.T) sim.Scenario { return gen.CancelRaceScenario(t) }
+
+func runCancelRace(t *testing.T, sc sim.Scenario) engine.Verdict {
+	h := sim.Run(t, sc)
+	if h.BubbleErr != "" {
+		return engine.Verdict{Labels: []string{"other-clause:bubble-error"}} // judged by C08
+	}
+	probs, decided := oracle.CancelBeforeAcquire(sc, h)
+	for _, p := range probs {
+		return engine.Failf(p.Sig, "%s\nscript:\n%s\nhistory:\n%s", p.Msg, oracle.ScriptText(sc), oracle.HistoryText(h))
+	}
+	if lim := sc.Cfg.Concurrency; h.MaxRunning > lim {
+		return engine.Failf("C06/limit-exceeded", "%d handlers were executing at one instant, limit %d\nscript:\n%s", h.MaxRunning, lim, oracle.ScriptText(sc))
+	}
+	return engine.Verdict{NonTrivial: decided > 0, Labels: []string{fmt.Sprintf("cancelled-in-front-of-the-semaphore:%d", decided)}}
+}
+
+func init() {
+	parts = append(parts, engine.Part[sim.Scenario]{Name: "cancelrace", Run: runCancelRace, Gen: genCancelRace,
+		Rule: "Concurrency 1-3 with all (or all but one) slots taken by parked calls; one to three further calls are each held by a pin at the hook site in front of the slot semaphore while CancelRequest names them and, in three cases of four, a slot is given back before or after the cancel: a call that arrived at that site before CancelRequest began and went on only after it had returned asks for its slot with a cancelled context and must never run, free slot or not; non-trivial = at least one call of the script was in that position (decided from the hook trace and the cancel-done event); distinct = hash of the scenario"})
 }
 
 func TestProp(t *testing.T)   { engine.RunParts(t, "C06", parts) }
